@@ -632,6 +632,13 @@ CORPUS = [
     dict(kind="dist", fn="rnbinom", fam="nbinom", n=4000, seed=5, params=dict(size=2.5, mu=1.7), g1=1),
     dict(kind="dp", fn="dnbinom", fam="nbinom", x=3, params=dict(size=2.5, mu=1.7), flags=dict(log=True)),
     dict(kind="dp", fn="dexp", fam="exp", x=0.4, params=dict(rate=2.5), flags=dict(log=False)),
+    # large arguments: closed forms written with gamma/binomial coefficients overflow here, log-gamma forms do not
+    dict(kind="dp", fn="dnbinom", fam="nbinom", x=600, params=dict(size=600.0, mu=600.0), flags=dict(log=False)),
+    dict(kind="dp", fn="dnbinom", fam="nbinom", x=600, params=dict(size=600.0, mu=600.0), flags=dict(log=True)),
+    dict(kind="dp", fn="dnbinom", fam="nbinom", x=900, params=dict(size=750.5, mu=820.0), flags=dict(log=True)),
+    dict(kind="dp", fn="dpois", fam="pois", x=790, params=dict(mu=800.0), flags=dict(log=True)),
+    dict(kind="dp", fn="dbinom", fam="binom", x=1010, params=dict(size=2000, prob=0.5), flags=dict(log=False)),
+    dict(kind="dp", fn="dgamma", fam="gamma", x=148.0, params=dict(shape=300.0, rate=2.0), flags=dict(log=True)),
 ]
 
 
